@@ -16,7 +16,7 @@ import (
 
 func c13Counts(tier string) (batches, per int) {
 	if tier == "thorough" {
-		return 4000, 50
+		return 12000, 50
 	}
 	return 400, 25
 }
@@ -183,6 +183,11 @@ func shapeClass(name string) string {
 
 func c13Judge(c *Ctx, rec spg.CharRecipe, kn knobSet, sample bool) {
 	defer knobs(kn.Trials, kn.FailRate)()
+	if c.R.Chance(1, 2) { // recipes that differ only in how the same characters are grouped into fields, used first
+		tc := charTreeCase{Siblings: siblingsOf(c.R, rec)}
+		tc.preCalls()
+		c.Count("sibling_recipes_used_first", int64(len(tc.Siblings)))
+	}
 	sem := oracle.CharSemOf(rec)
 	desc := map[string]interface{}{"recipe": descChar(rec), "max_trials": kn.Trials, "max_fail_rate": kn.FailRate}
 	key := fmt.Sprintf("%s|%d|%g", descChar(rec), kn.Trials, kn.FailRate)
